@@ -144,10 +144,14 @@ func (s *ftpService) Handle(ctx context.Context, conn net.Conn) error {
 		}
 	}()
 
-	ftpConn.Serve()
+	// also when a command handler panics (the dispatcher recovers it): the
+	// pump must end with the session
+	defer func() {
+		close(recv)
+		<-done
+	}()
 
-	close(recv)
-	<-done
+	ftpConn.Serve()
 
 	return nil
 }
